@@ -55,6 +55,12 @@ type tree struct {
 	aims    []aim               // positions of canaries relative to the root
 	canaryL []string            // for the sample: what was placed outside
 	ntok    int
+	ids     []string          // every id has a file i/<id> and a file o/<id>
+	ioDir   bool              // "io" is a directory (with files) instead of a file
+	cDir    bool              // "c" is a directory (with files) instead of a file
+	noFile  string            // an id without files
+	roots   map[string]string // root kind -> the path given as -serve-files-from
+	rootsL  map[string]string // root kind -> how the path resolves (for samples and witnesses)
 }
 
 type aim struct {
@@ -65,6 +71,9 @@ type aim struct {
 func newToken(rng *rand.Rand, n int) string {
 	return fmt.Sprintf("T%012x-%d-%012xZ", rng.Uint64()&0xffffffffffff, n, rng.Uint64()&0xffffffffffff)
 }
+
+// ids of shell endpoints for which same-named files i/<id> and o/<id> are made
+var idPool = []string{"abc", "kittens", "0", "a b", "ünï", "%41", "x.y", "-", "_id", "ID", "i", "o", "c", "io", "q?x", "h#x", "a&b", "semi;colon", "UPPER.txt"}
 
 var namePool = []string{
 	"a b", "100%", "%41", "%2e%2e", "ünï", "日本語", "..x", "x..", "...", ".hidden", ".git",
@@ -170,12 +179,36 @@ func genTree(r *mon.Run, ti int) *tree {
 	t.root = filepath.Join(t.caseDir, "root")
 	t.addDir("")
 	// files and directories named like the shell endpoints
-	t.addFile(rng, "c")
-	t.addFile(rng, "io")
+	// (c and io are files in two trees out of three; a directory with an index.html and a file x in the others)
+	xr := r.Rng("treex", ti)
+	t.ioDir, t.cDir = ti%3 == 1, ti%3 == 2
+	for _, n := range []string{"c", "io"} {
+		if n == "c" && t.cDir || n == "io" && t.ioDir {
+			t.addDir(n)
+			t.addFile(rng, n+"/index.html")
+			t.addFile(rng, n+"/x")
+		} else {
+			t.addFile(rng, n)
+		}
+	}
+	t.ids = []string{"x", "id"}
+	for len(t.ids) < 4 {
+		id := idPool[xr.IntN(len(idPool))]
+		dup := false
+		for _, o := range t.ids {
+			dup = dup || o == id
+		}
+		if !dup {
+			t.ids = append(t.ids, id)
+		}
+	}
+	t.ids = append(t.ids, fmt.Sprintf("%08x", xr.Uint32()))
+	t.noFile = fmt.Sprintf("nofile-%06x", xr.Uint32()&0xffffff)
 	for _, d := range []string{"i", "o"} {
 		t.addDir(d)
-		t.addFile(rng, d+"/x")
-		t.addFile(rng, d+"/id")
+		for _, id := range t.ids {
+			t.addFile(rng, d+"/"+id)
+		}
 	}
 	t.addDir("empty")
 	t.addDir("withindex")
@@ -228,8 +261,47 @@ func genTree(r *mon.Run, ti int) *tree {
 		{1, "canary-sibling.txt"}, {1, "secret/file"}, {1, "secret/"}, {1, "secret"}, {1, ""}, {1, "rootx/secret.txt"},
 		{1, "root.bak"}, {1, "x"}, {1, "c"}, {2, fmt.Sprintf("canary-top-%d.txt", ti)}, {2, ""}, {12, "etc/passwd"}, {30, abs},
 		{30, strings.TrimPrefix(filepath.Join(t.caseDir, "secret", "file"), "/")},
+		{1, "links/canary-linkside.txt"}, {1, "links/"},
 	}
+
+	// the configured root itself: named directly or through symbolic links kept beside the tree
+	links := filepath.Join(t.caseDir, "links")
+	os.MkdirAll(links, 0o755)
+	t.canaryFile(rng, filepath.Join(links, "canary-linkside.txt"), "")
+	fileAbs := filepath.Join(t.root, filepath.FromSlash(t.single))
+	t.roots = map[string]string{"dir": t.root, "file": fileAbs, "unset": ""}
+	t.rootsL = map[string]string{"dir": "directory", "file": "regular file", "unset": "(not set)"}
+	t.roots["symlink-to-dir"], t.rootsL["symlink-to-dir"] = makeLinks(xr, links, "ld", t.root, 1)
+	t.roots["symlink-to-file"], t.rootsL["symlink-to-file"] = makeLinks(xr, links, "lf"+filepath.Ext(fileAbs), fileAbs, 1)
+	t.roots["symlink-chain-to-dir"], t.rootsL["symlink-chain-to-dir"] = makeLinks(xr, links, "cd", t.root, 2+xr.IntN(3))
+	t.roots["symlink-chain-to-file"], t.rootsL["symlink-chain-to-file"] = makeLinks(xr, links, "cf", fileAbs, 2+xr.IntN(3))
+	t.roots["dangling-symlink"], t.rootsL["dangling-symlink"] = makeLinks(xr, links, "dangling", filepath.Join(links, fmt.Sprintf("nowhere-%08x", xr.Uint32())), 1+xr.IntN(2))
 	return t
+}
+
+// makeLinks creates name -> name.1 -> ... -> final in dir (hops symbolic
+// links, each written absolute or relative) and returns the first link.
+func makeLinks(rng *rand.Rand, dir, name, final string, hops int) (string, string) {
+	desc := ""
+	next := final
+	for k := hops - 1; k >= 0; k-- {
+		ln := filepath.Join(dir, name)
+		if k > 0 {
+			ln = filepath.Join(dir, fmt.Sprintf("%s.%d", name, k))
+		}
+		to := next
+		if rng.IntN(2) == 0 {
+			if rel, err := filepath.Rel(dir, next); err == nil {
+				to = rel
+			}
+		}
+		if err := os.Symlink(to, ln); err != nil {
+			panic(err)
+		}
+		desc = " -> " + to + desc
+		next = ln
+	}
+	return next, filepath.Base(next) + desc
 }
 
 func listKey(ents []string) string {
@@ -478,6 +550,81 @@ type tgt struct {
 	noHost bool
 	weak   bool // the request is odd in a way other than its target: no strict expectations
 	curl   bool
+	mx     bool   // a cell of the shell-endpoint x method matrix
+	body   string // matrix cells: none, cl0 (Content-Length: 0), cl (a body that ends), chunked (a body that stays open)
+	shadow bool   // matrix cells: a file or directory of the same name exists in the tree
+}
+
+// ---- the shell endpoint x method matrix --------------------------------------------
+
+var mxStd = []string{"GET", "HEAD", "POST", "PUT", "DELETE", "PATCH", "OPTIONS", "TRACE"}
+var mxOdd = []string{"get", "Get", "PROPFIND", "MKCOL", "FOO", "BREW", "G%54", "M-SEARCH", "X!#$&'*+-.^_`|~", "LOCK", "PURGE", "post"}
+
+func mclass(m string) string {
+	for _, s := range mxStd {
+		if s == m {
+			return m
+		}
+	}
+	return "made-up"
+}
+
+// canonical: the ways the project's own callback script uses the streaming
+// endpoints (curl GET on /i/{id}; curl -T / POST with a body on /o/{id} and /io).
+func canonical(shell, method, body string) bool {
+	switch shell {
+	case "i":
+		return method == "GET"
+	case "o":
+		return (method == "POST" || method == "PUT") && (body == "cl" || body == "chunked")
+	case "io":
+		return (method == "POST" || method == "PUT") && body == "chunked"
+	}
+	return false
+}
+
+// mxTargets lists (shell endpoint path) x (method) cells for one server; with
+// frac > 1 roughly one cell in frac is kept.
+func (t *tree) mxTargets(rng *rand.Rand, frac int) []tgt {
+	type ep struct {
+		path   string
+		shadow bool
+	}
+	eps := []ep{{"/c", true}, {"/%63", true}, {"/io", true}, {"/io/", t.ioDir}, {"/io/x", t.ioDir}, {"/i%6f", true}}
+	for _, id := range append(append([]string(nil), t.ids...), t.noFile) {
+		for _, d := range []string{"i", "o"} {
+			eps = append(eps, ep{"/" + d + "/" + escStyle(rng, id, rng.IntN(3)), id != t.noFile})
+		}
+	}
+	methods := append([]string(nil), mxStd...)
+	for k := 0; k < 2; k++ {
+		methods = append(methods, pick(rng, mxOdd))
+	}
+	var tok strings.Builder
+	for k, n := 0, 3+rng.IntN(6); k < n; k++ {
+		tok.WriteByte("ABCDEFGHIJKLMNOPQRSTUVWXYZ"[rng.IntN(26)])
+	}
+	methods = append(methods, tok.String()+"X")
+	var out []tgt
+	for _, e := range eps {
+		for _, m := range methods {
+			body := "none"
+			switch {
+			case m == "HEAD":
+			case strings.HasPrefix(e.path, "/i/"):
+				// the input endpoint never reads a request body, and a server that has an unread body
+				// before it does not notice the client going away: only bodiless requests there
+				body = pick(rng, []string{"none", "cl0"})
+			default:
+				body = pick(rng, []string{"none", "cl0", "cl", "chunked", "chunked"})
+			}
+			if frac > 1 && rng.IntN(frac) != 0 {
+				continue
+			}
+			out = append(out, tgt{class: "shell-matrix", method: m, target: e.path, proto: "HTTP/1.1", mx: true, body: body, shadow: e.shadow})
+		}
+	}
+	return out
 }
 
 func escMin(s string) string {
@@ -816,7 +963,9 @@ func escMinPath(abs string) string {
 type server struct {
 	r     *mon.Run
 	t     *tree
-	mode  string // dir single unset
+	mode  string // dir single unset dangling: what the configured path is
+	kind  string // how it is named: dir file unset symlink-to-dir symlink-to-file symlink-chain-to-dir symlink-chain-to-file dangling-symlink
+	fdir  string
 	s     *hk.Server
 	si    int
 	pos   int // log position after the last marker
@@ -980,24 +1129,38 @@ func (sv *server) viaCurl(target string) hop {
 // the attach notice and for the end of the response at the same time.
 func (sv *server) stream(g tgt, inf info, target string) hop {
 	sv.nprb++
-	var raw, want, method string
+	var raw, want, method, shape string
 	out := fmt.Sprintf("OUT-%d-%d", sv.si, sv.nprb)
 	in := fmt.Sprintf("IN-%d-%d", sv.si, sv.nprb)
 	switch inf.shell {
 	case "i":
-		method = "GET"
-		raw = fmt.Sprintf("GET %s HTTP/1.1\r\nHost: %s\r\nConnection: close\r\n\r\n", target, host)
+		method, shape = "GET", "none"
 		want = fmt.Sprintf("Input connected: ID %q", inf.shellID)
 	case "o":
-		method = "POST"
-		raw = fmt.Sprintf("POST %s HTTP/1.1\r\nHost: %s\r\nContent-Length: %d\r\nConnection: close\r\n\r\n%s\n", target, host, len(out)+1, out)
+		method, shape = "POST", "cl"
 		want = fmt.Sprintf("Output connected: ID %q", inf.shellID)
 	default:
-		method = "POST"
-		raw = fmt.Sprintf("POST %s HTTP/1.1\r\nHost: %s\r\nTransfer-Encoding: chunked\r\nConnection: close\r\n\r\n%x\r\n%s\n\r\n", target, host, len(out)+1, out)
+		method, shape = "POST", "chunked"
 		want = "Shell is ready to go!"
 	}
+	if g.mx {
+		method, shape = g.method, g.body
+	}
+	raw = fmt.Sprintf("%s %s HTTP/1.1\r\nHost: %s\r\n", method, target, host)
+	switch shape {
+	case "cl0":
+		raw += "Content-Length: 0\r\nConnection: close\r\n\r\n"
+	case "cl":
+		raw += fmt.Sprintf("Content-Length: %d\r\nConnection: close\r\n\r\n%s\n", len(out)+1, out)
+	case "chunked":
+		raw += fmt.Sprintf("Transfer-Encoding: chunked\r\nConnection: close\r\n\r\n%x\r\n%s\n\r\n", len(out)+1, out)
+	default:
+		raw += "Connection: close\r\n\r\n"
+	}
 	h := hop{Method: method, Target: target}
+	if g.mx {
+		h.Via = "body:" + shape
+	}
 	c, err := hk.Dial(sv.s.Addr, "")
 	if err != nil {
 		h.Err = err.Error()
@@ -1067,6 +1230,8 @@ func (sv *server) stream(g tgt, inf info, target string) hop {
 		}
 		if ended {
 			// attached and already over: nothing to deliver
+		} else if method == "HEAD" || inf.shell == "io" && shape != "chunked" || inf.shell == "o" && shape == "chunked" {
+			// nothing can come back (HEAD), or the request body decides when the shell ends: attached is all there is to see
 		} else if inf.shell == "i" || inf.shell == "io" {
 			sv.s.Ich <- in
 			deadline := time.After(hk.Bound)
@@ -1202,7 +1367,11 @@ func (sv *server) violate(idx int, key, what string, g tgt, hops []hop) {
 	for _, h := range hops {
 		chain = append(chain, h.String())
 	}
-	w := map[string]any{"tree": sv.t.idx, "mode": sv.mode, "class": g.class, "request_line": fmt.Sprintf("%s %s %s", g.method, strconv.Quote(trunc(g.target, 400)), g.proto), "chain": chain, "root": sv.t.root}
+	w := map[string]any{"tree": sv.t.idx, "mode": sv.mode, "class": g.class, "request_line": fmt.Sprintf("%s %s %s", g.method, strconv.Quote(trunc(g.target, 400)), g.proto), "chain": chain, "root": sv.t.root, "root_kind": sv.kind, "serve_files_from": sv.fdir, "serve_files_from_is": sv.t.rootsL[sv.kind]}
+	if g.mx {
+		w["request_body"] = g.body
+		w["same_named_file_in_tree"] = g.shadow
+	}
 	if g.rangeV != "" {
 		w["range"] = g.rangeV
 	}
@@ -1213,7 +1382,7 @@ func (sv *server) violate(idx int, key, what string, g tgt, hops []hop) {
 		w["last_notices"] = hops[n-1].Notices
 		w["last_body_head"] = trunc(string(hops[n-1].body), 300)
 	}
-	sv.r.Violate("target", idx, key, fmt.Sprintf("%s [%s mode, %s %s]", what, sv.mode, g.method, strconv.Quote(trunc(g.target, 200))), w)
+	sv.r.Violate("target", idx, key, fmt.Sprintf("%s [-serve-files-from = %s, %s %s]", what, sv.kind, g.method, strconv.Quote(trunc(g.target, 200))), w)
 }
 
 func containsAny(hay []byte, needles []string) (string, bool) {
@@ -1293,14 +1462,45 @@ func (sv *server) judgeHop(idx int, g tgt, hops []hop, first bool) {
 			sv.violate(idx, "shell-endpoint-shadowed", fmt.Sprintf("the answer to a shell endpoint contains the content of the file %q", t.relOfToken(tok)), g, hops)
 			return
 		}
+		// the file handler announces itself before anything else: its notice in the window of a
+		// request for a shell endpoint means the request was treated as a file request
+		r.Count("shell_probe_windows_checked_for_file_notice", 1)
+		for _, n := range h.Notices {
+			if strings.Contains(n, "File requested:") {
+				sv.violate(idx, "shell-endpoint-shadowed", fmt.Sprintf("a request for a shell endpoint (%s) was handled as a file request (notice %q, status %d)", h.inf.shell, trunc(n, 120), h.Status), g, hops)
+				return
+			}
+		}
+		if g.mx && first {
+			r.Count("mx:"+h.inf.shell+":"+mclass(h.Method), 1)
+			r.Count("mx_body:"+g.body, 1)
+			if g.shadow {
+				r.Count("mx_cells_with_a_same_named_file", 1)
+			}
+		}
 		if h.inf.muxRedir && h.Status >= 300 && h.Status < 400 {
 			return // the router sends the client to the cleaned path first
 		}
 		if g.weak && first && (h.Status == 400 || h.Status == 505) {
 			return // odd protocol version or missing Host: rejected before routing
 		}
-		if h.Err != "" && h.Status == 0 {
+		if h.Err != "" && h.Status == 0 && h.Shell == "" {
 			r.Inconclusive(fmt.Sprintf("shell probe %q got no response: %s", h.Target, h.Err))
+			return
+		}
+		if g.mx && h.inf.shell != "c" && !canonical(h.inf.shell, h.Method, g.body) {
+			// Any other method or body shape: the statement promises that files do not take the endpoint
+			// over (checked above); what the endpoint does with such a request is recorded, not demanded.
+			r.Count("mx_not_shadowed_other_methods", 1)
+			if h.Shell != "" {
+				r.Count("mx_other_methods_attached", 1)
+				r.Count("mx_other_methods_attached:"+h.inf.shell, 1)
+				if h.Echo {
+					r.Count("mx_other_methods_input_delivered", 1)
+				}
+			} else {
+				r.Count(fmt.Sprintf("mx_other_methods_not_attached:%s:%d", h.inf.shell, h.Status), 1)
+			}
 			return
 		}
 		switch h.inf.shell {
@@ -1395,9 +1595,21 @@ func (sv *server) judgeHop(idx int, g tgt, hops []hop, first bool) {
 			if ok {
 				r.Count("bodies_matched_to_files", 1)
 				r.Count("single_file_exact", 1)
+				r.Count("single_file_exact:"+sv.kind, 1)
 			} else {
 				sv.violate(idx, "single-file-mode-other-content", fmt.Sprintf("single-file mode answered %d with something that is not exactly the configured file", h.Status), g, hops)
 			}
+		}
+	case "dangling":
+		// the configured name leads nowhere: there is no tree, so no file content may come back
+		var all []string
+		for _, tok := range t.tokens {
+			all = append(all, tok)
+		}
+		if tok, ok := containsAny(h.scan, all); ok {
+			sv.violate(idx, "dangling-root-serves", fmt.Sprintf("-serve-files-from is a dangling symbolic link and the content of %q was returned", t.relOfToken(tok)), g, hops)
+		} else {
+			r.Count("dangling_root_responses_without_file_content", 1)
 		}
 	case "unset":
 		var all []string
@@ -1414,6 +1626,7 @@ func (sv *server) judgeHop(idx int, g tgt, hops []hop, first bool) {
 	// (f) every file request is reported
 	if sv.mode != "unset" && !starOK && (is2xx || h.inf.clean && !weak) {
 		r.Count("notice_obligations", 1)
+		r.Count("notice_obligations:"+sv.kind, 1)
 		found, verbatim := false, false
 		for _, n := range h.Notices {
 			if strings.Contains(n, "File requested:") {
@@ -1465,6 +1678,7 @@ func (sv *server) checkBodyDir(idx int, g tgt, hops []hop) {
 	}
 	if _, ok := t.byBody[string(h.body)]; ok {
 		r.Count("bodies_matched_to_files", 1)
+		r.Count("dir_bodies_matched_to_files:"+sv.kind, 1)
 		return
 	}
 	ms := anchorRe.FindAllSubmatch(h.body, -1)
@@ -1577,6 +1791,12 @@ func (sv *server) runTarget(idx int, g tgt) bool {
 	if hops[0].inf.shell != "" && hops[0].Shell != "" {
 		r.Sample("shell-probe", chainSample(sv, g, hops))
 	}
+	if g.mx && g.shadow && !canonical(hops[0].inf.shell, g.method, g.body) {
+		r.Sample("shell-matrix:"+hops[0].inf.shell, chainSample(sv, g, hops))
+	}
+	if sv.kind != sv.mode && sv.kind != "file" && !g.mx && len(hops) == 1 && hops[0].inf.clean {
+		r.Sample("root:"+sv.kind, chainSample(sv, g, hops))
+	}
 	if g.class == "dotseg-encoded" || g.class == "backslash" {
 		r.Sample("hostile:"+g.class, chainSample(sv, g, hops))
 	}
@@ -1588,7 +1808,7 @@ func chainSample(sv *server, g tgt, hops []hop) map[string]any {
 	for _, h := range hops {
 		chain = append(chain, h.String())
 	}
-	return map[string]any{"tree": sv.t.idx, "mode": sv.mode, "class": g.class, "chain": chain, "notices_last_hop": hops[len(hops)-1].Notices}
+	return map[string]any{"tree": sv.t.idx, "mode": sv.mode, "root_kind": sv.kind, "class": g.class, "method": g.method, "request_body": g.body, "chain": chain, "notices_last_hop": hops[len(hops)-1].Notices}
 }
 
 // judgeChain applies the whole-request rules of single-file and unset mode.
@@ -1648,60 +1868,103 @@ func (sv *server) judgeChain(idx int, g tgt, hops []hop) {
 	}
 }
 
-func runServer(r *mon.Run, si int, t *tree, mode string, n int) {
+// rootKinds: how -serve-files-from names its target. div: the share of the
+// random targets a server of this kind gets; mxFrac: one matrix cell in mxFrac.
+var rootKinds = []struct {
+	name, mode  string
+	div, mxFrac int
+}{
+	{"dir", "dir", 1, 1},
+	{"file", "single", 1, 1},
+	{"unset", "unset", 1, 3},
+	{"symlink-to-dir", "dir", 4, 3},
+	{"symlink-to-file", "single", 4, 3},
+	{"symlink-chain-to-dir", "dir", 4, 3},
+	{"symlink-chain-to-file", "single", 4, 3},
+	{"dangling-symlink", "dangling", 4, 3},
+}
+
+const mxBase = 90000
+
+func runServer(r *mon.Run, si int, t *tree, ki int, per int) {
+	k := rootKinds[ki]
+	kind, mode := k.name, k.mode
+	n := per / k.div
 	base := si * 100000
+	mx := t.mxTargets(r.Rng("mx", si), k.mxFrac)
 	if r.Replaying() {
 		any := false
 		for i := 0; i < n; i++ {
 			any = any || r.Want("target", base+i)
 		}
+		for j := range mx {
+			any = any || r.Want("target", base+mxBase+j)
+		}
 		if !any {
 			return
 		}
 	}
-	cfg := hk.Config{}
-	switch mode {
-	case "dir":
-		cfg.FDir = t.root
-	case "single":
-		cfg.FDir = filepath.Join(t.root, filepath.FromSlash(t.single))
-	}
+	cfg := hk.Config{FDir: t.roots[kind]}
 	s, err := hk.Start(cfg)
 	if err != nil {
-		r.Inconclusive(fmt.Sprintf("server (%s mode) did not start: %v", mode, err))
+		r.Inconclusive(fmt.Sprintf("server (-serve-files-from = %s) did not start: %v", kind, err))
 		return
 	}
 	defer s.Stop()
 	r.Count("servers", 1)
-	sv := &server{r: r, t: t, mode: mode, s: s, si: si}
+	r.Count("servers:"+kind, 1)
+	sv := &server{r: r, t: t, mode: mode, kind: kind, fdir: cfg.FDir, s: s, si: si}
 	if _, ok := sv.mark(); !ok {
 		r.Inconclusive("marker lost")
 		return
+	}
+	// the random targets: the three direct kinds of a tree see the same ones, every link kind its own
+	off := 0
+	if ki >= 3 {
+		off = 10000 * ki
 	}
 	for i := 0; i < n; i++ {
 		idx := base + i
 		if !r.Want("target", idx) {
 			continue
 		}
-		g := genTarget(r.Rng("target", t.idx*100000+i), t)
+		g := genTarget(r.Rng("target", t.idx*100000+off+i), t)
 		if !sv.runTarget(idx, g) {
 			return
 		}
 		r.Eval(1)
 		r.Count("targets", 1)
+		r.Count("targets_of:"+kind, 1)
 		r.Count("targets:"+g.class, 1)
 		if g.class != "clean-missing" {
-			r.Distinct(mode + "|" + strconv.Itoa(t.idx) + "|" + g.method + " " + g.target + " " + g.proto + "|" + g.rangeV)
+			r.Distinct(kind + "|" + strconv.Itoa(t.idx) + "|" + g.method + " " + g.target + " " + g.proto + "|" + g.rangeV)
 		}
+	}
+	// the shell endpoint x method matrix
+	for j, g := range mx {
+		idx := base + mxBase + j
+		if !r.Want("target", idx) {
+			continue
+		}
+		if !sv.runTarget(idx, g) {
+			return
+		}
+		r.Eval(1)
+		r.Count("mx_cells", 1)
+		r.Count("mx_cells_of:"+kind, 1)
+		r.Distinct("mx|" + kind + "|" + strconv.Itoa(t.idx) + "|" + g.method + " " + g.target + "|" + g.body)
 	}
 }
 
 func Run(r *mon.Run) {
-	r.Rule = "generated directory trees (depth <= 3; names with spaces, %, unicode, '..x', 'x..', '...', leading dots, literal '%2e%2e', files named c and io, directories i/ and o/ with files x and id; every file a unique token) with canaries outside the root (sibling files and directories, a name-prefix sibling, parents; content tokens, and name tokens that no request ever spells); three servers per tree (hsrv.Server in-process on real TLS): -serve-files-from = the directory, = one regular file inside it, unset. Request lines are written raw (hk.RoundTrip; a sample through real curl --path-as-is): existing and missing clean paths, dot segments plain/%2e/%252e/mixed, ..;/, %2f %5c and backslashes, //, /./, overlong UTF-8, trailing dots, NUL and control bytes, 8 KiB paths, absolute-form, *, authority-form, no leading slash, queries, methods, Range, odd protocol versions, shell-named paths and near misses; 301s are followed by hand (<= 5 hops). Oracle: no response at any hop contains a canary token; a 2xx body in directory mode is exactly an in-tree file (or the announced range of one) or a listing whose entries are exactly those of an in-tree directory; single-file mode returns exactly that file for non-shell targets (or an HTTP-layer rejection for targets that are not clean); unset mode answers 404; /c, /i/{id}, /o/{id}, /io, /io/... keep their meaning (script; attach notice and delivered input line) and never carry a file token; every request that reaches the file handler has a 'File requested' notice inside its marker window. A case = (tree, mode, request); distinct = distinct (mode, tree, request line, Range); clean-missing targets are counted as trivial"
+	r.Rule = "generated directory trees (depth <= 3; names with spaces, %, unicode, '..x', 'x..', '...', leading dots, literal '%2e%2e'; every file a unique token) that contain things named like the shell endpoints: c and io (a file in two trees out of three, a directory with index.html and x in the others), directories i/ and o/ each with files x, id, two ids drawn from a pool (spaces, unicode, %41, ?, #, ;) and a random hex id; canaries outside the root (sibling files and directories, a name-prefix sibling, parents, the directory that holds the symbolic links; content tokens, and name tokens that no request ever spells). Eight servers per tree (hsrv.Server in-process on real TLS), one per way of naming -serve-files-from: the directory, one regular file inside it, unset, a symbolic link to the directory, a symbolic link to the file, a chain of 2-4 links (each absolute or relative) to the directory, such a chain to the file, a dangling link (1-2 hops). The first three get the full number of random request lines (the same ones), every link kind a quarter of it (its own). Request lines are written raw (hk.RoundTrip; a sample through real curl --path-as-is): existing and missing clean paths, dot segments plain/%2e/%252e/mixed, ..;/, %2f %5c and backslashes, //, /./, overlong UTF-8, trailing dots, NUL and control bytes, 8 KiB paths, absolute-form, *, authority-form, no leading slash, queries, methods, Range, odd protocol versions, shell-named paths and near misses; 301s are followed by hand (<= 5 hops). On top, every server gets the shell endpoint x method matrix: paths /c, /%63, /io, /io/, /io/x, /i%6f, /i/<id> and /o/<id> for every id with files plus one without (ids percent-encoded in three styles) x methods GET HEAD POST PUT DELETE PATCH OPTIONS TRACE, two made-up tokens from a list (get, PROPFIND, G%54, ...) and one random token x request body none / Content-Length 0 / a body that ends / an open chunked body (all cells on the directory and file servers, one in three elsewhere). Oracle: no response at any hop contains a canary token; a 2xx body when a directory is named (directly or through links) is exactly an in-tree file (or the announced range of one) or a listing whose entries are exactly those of an in-tree directory; when a regular file is named (directly or through links) exactly that file comes back for non-shell targets (or an HTTP-layer rejection for targets that are not clean); unset answers 404; a dangling link yields no file content at all; for every request whose path names /c, /i/{id}, /o/{id}, /io or /io/..., whatever the method: the response carries no file token and the marker window of the request holds no 'File requested' notice (the file handler did not take it), /c returns the script, and the project's own uses (GET /i/{id}; POST or PUT with a body on /o/{id}; POST or PUT with an open body on /io) attach a stream (attach notice; delivered input line counted) - what other methods do on the streaming endpoints is recorded, not demanded; every request that reaches the file handler has a 'File requested' notice inside its marker window, also under link and dangling roots. A case = (tree, root kind, request); distinct = distinct (root kind, tree, request line, Range / body shape); clean-missing targets are counted as trivial"
 	r.Assumptions = []string{
-		"symlinks inside the tree are not generated (following them is http.Dir behaviour the statement does not speak about)",
+		"symlinks inside the tree are not generated (following them is http.Dir behaviour the statement does not speak about); symbolic links are used only to name the configured root itself, where 'naming a directory' / 'naming a single file' is read as what the name resolves to",
+		"for a dangling link the statement fixes no status: only 'no file content', 'shell endpoints untouched' and 'file requests reported' are demanded",
 		"which raw targets are 'clean' (reach the catch-all unchanged) and which name a shell route is decided by a small reference written from net/http's documented routing (cleaned escaped path, per-segment unescaping)",
 		"canary name tokens are never spelled in a request, so their appearance in a response is a leak, not an echo",
+		"matrix cells on /i/{id} carry no request body: the input endpoint never reads one, and the server does not notice a client leaving behind an unread body, which would keep the single shell slot busy for the following cells",
+		"CONNECT is left out of the matrix (net/http routes it without cleaning and clients cannot send it to a path)",
 	}
 	nt := r.N(6, 60)
 	per := r.N(400, 3000)
@@ -1712,6 +1975,12 @@ func Run(r *mon.Run) {
 		r.Count("tree_files", int64(len(trees[i].fileL)))
 		r.Count("tree_dirs", int64(len(trees[i].dirL)))
 		r.Count("canaries", int64(len(trees[i].canaryL)))
+		if trees[i].ioDir {
+			r.Count("trees_with_io_as_directory", 1)
+		}
+		if trees[i].cDir {
+			r.Count("trees_with_c_as_directory", 1)
+		}
 		var listing []string
 		for _, d := range trees[i].dirL {
 			listing = append(listing, "root/"+d+"/")
@@ -1723,12 +1992,12 @@ func Run(r *mon.Run) {
 		if len(listing) > 80 {
 			listing = listing[:80]
 		}
-		r.Sample("tree", map[string]any{"case_dir": trees[i].caseDir, "in_tree": listing, "canaries_outside": trees[i].canaryL, "single_file_mode_serves": trees[i].single})
+		r.Sample("tree", map[string]any{"case_dir": trees[i].caseDir, "in_tree": listing, "canaries_outside": trees[i].canaryL, "single_file_mode_serves": trees[i].single, "shell_ids_with_files": trees[i].ids, "serve_files_from_by_kind": trees[i].roots, "links": trees[i].rootsL})
 	}
-	modes := []string{"dir", "single", "unset"}
+	nk := len(rootKinds)
 	if r.WantEngine("target") {
-		mon.Parallel(nt*3, runtime.NumCPU(), func(k int) {
-			runServer(r, k, trees[k/3], modes[k%3], per)
+		mon.Parallel(nt*nk, runtime.NumCPU(), func(k int) {
+			runServer(r, k, trees[k/nk], k%nk, per)
 		})
 	}
 	q := func(quick, thorough int64) int64 {
@@ -1737,9 +2006,42 @@ func Run(r *mon.Run) {
 		}
 		return quick
 	}
-	r.Floor("servers", int64(nt*3))
-	r.Floor("targets", int64(nt*3*per))
-	r.Floor("canary_token_scans", int64(nt*3*per))
+	ntarg := 0
+	for _, k := range rootKinds {
+		ntarg += nt * (per / k.div)
+		r.Floor("servers:"+k.name, int64(nt))
+		r.Floor("targets_of:"+k.name, int64(nt*(per/k.div)))
+		r.Floor("mx_cells_of:"+k.name, int64(nt*40))
+		switch k.mode {
+		case "dir":
+			r.Floor("dir_bodies_matched_to_files:"+k.name, int64(nt*(per/k.div)/20))
+		case "single":
+			r.Floor("single_file_exact:"+k.name, int64(nt*(per/k.div)/10))
+		}
+		if k.mode != "unset" {
+			r.Floor("notice_obligations:"+k.name, int64(nt*(per/k.div)/10))
+		}
+	}
+	r.Floor("dangling_root_responses_without_file_content", int64(nt*(per/4)/2))
+	r.Floor("servers", int64(nt*nk))
+	r.Floor("targets", int64(ntarg))
+	r.Floor("canary_token_scans", int64(ntarg))
+	// every (shell endpoint, method) cell of the matrix
+	for _, sh := range []string{"c", "i", "o", "io"} {
+		for _, m := range append(append([]string(nil), mxStd...), "made-up") {
+			r.Floor("mx:"+sh+":"+m, q(20, 200))
+		}
+	}
+	for _, b := range []string{"none", "cl0", "cl", "chunked"} {
+		r.Floor("mx_body:"+b, q(200, 2000))
+	}
+	r.Floor("mx_cells", int64(nt*600))
+	r.Floor("mx_cells_with_a_same_named_file", int64(nt*400))
+	r.Floor("shell_probe_windows_checked_for_file_notice", int64(nt*600))
+	r.Floor("mx_not_shadowed_other_methods", int64(nt*300))
+	r.Floor("mx_other_methods_attached", int64(nt*150))
+	r.Floor("trees_with_io_as_directory", int64(nt/3))
+	r.Floor("trees_with_c_as_directory", int64(nt/3))
 	r.Floor("bodies_matched_to_files", q(800, 50000))
 	r.Floor("listings_checked", q(60, 3000))
 	r.Floor("redirects_followed", q(1000, 50000))
